@@ -183,6 +183,19 @@ func (c *Ctx) singleDef(root ast.Node, obj types.Object) (ast.Expr, int) {
 	var def ast.Expr
 	n := 0
 	ast.Inspect(root, func(x ast.Node) bool {
+		if vs, isVS := x.(*ast.ValueSpec); isVS {
+			for i, nm := range vs.Names {
+				if c.infoFor(nm).Defs[nm] == obj && len(vs.Values) > 0 {
+					n++
+					if len(vs.Values) == len(vs.Names) {
+						def = vs.Values[i]
+					} else {
+						def = vs.Values[0]
+					}
+				}
+			}
+			return true
+		}
 		as, ok := x.(*ast.AssignStmt)
 		if !ok {
 			return true
